@@ -1177,7 +1177,7 @@ class RTCSctpTransport(AsyncIOEventEmitter):
         # prune obsolete chunks
         for stream_id, inbound_stream in self._inbound_streams.items():
             self._advertised_rwnd += inbound_stream.prune_chunks(
-                self._last_received_tsn
+                chunk.cumulative_tsn
             )
 
     async def _receive_sack_chunk(self, chunk: SackChunk) -> None:
